@@ -236,7 +236,7 @@ func (eng *Engine) Verify(con *Contract) (*VC, error) {
 		fr.params = append(fr.params, v)
 		vc.noteRefs(v)
 		if v.K == KPtr {
-			vc.assumeRaw(Or(Eq(v.T, IntLit(0)), Select(vc.heapInit("G.alloc", ArrSort(SInt, SBool)), v.T)))
+			vc.assumeRaw(Or(Eq(v.T, IntLit(0)), vc.isAllocated(pre, v.T)))
 		}
 	}
 	for _, fv := range fn.FreeVars {
